@@ -55,6 +55,13 @@ static rc::Gen<Case> genCase() {
             s.sx = ax == 0 ? a : b;
             s.sy = ax == 1 ? a : (ax == 0 ? cc : b);
             s.sz = ax == 2 ? a : cc;
+            // in half of the cases the sampling is made irregular: repeated 1-to-3 splits of a few neighbouring faces pile nodes up on one
+            // side, so that the mean of the nodes is not the (area-weighted) centroid of the surface
+            if (*irange(0, 1)) {
+                const int nref = *irange(4, 14);
+                const unsigned f0 = (unsigned)*irange(0, 60);
+                for (int i = 0; i < nref; i++) s.refine.push_back({f0 + (unsigned)*irange(0, 3), 0});
+            }
         } else {
             s = *mg::genShape(2);
         }
@@ -251,6 +258,7 @@ static std::string run(const Case& k, vf::Ctx& ctx) {
         }
         // and it is the long axis of the ellipsoid: compare with the direction of the farthest node pair
         ctx.count("axis_clause_checked");
+        if (k.base.nn() != 42 && k.base.nn() != 162 && k.base.nn() != 12) ctx.count("axis_clause_checked_on_irregular_sampling");
     }
     ctx.count(fl1 ? "input_with_inward_triangles" : "input_all_outward");
     if (g1.D >= 10 * g1.s) ctx.count("far_from_origin");
